@@ -369,11 +369,19 @@ func Watch(what string, f func() error) error {
 func Safe(f func() error) (err error) {
 	defer func() {
 		if r := recover(); r != nil {
-			st := string(debug.Stack())
-			if len(st) > 1800 {
-				st = st[:1800]
+			// keep the frames of the code under test (the first ones below the panic)
+			var keep []string
+			lines := strings.Split(string(debug.Stack()), "\n")
+			for i := 0; i+1 < len(lines); i++ {
+				if strings.Contains(lines[i+1], "/repo/") || strings.Contains(lines[i], "gozxing") && strings.Contains(lines[i+1], ".go:") {
+					keep = append(keep, strings.TrimSpace(lines[i])+" @ "+strings.TrimSpace(lines[i+1]))
+					i++
+					if len(keep) >= 6 {
+						break
+					}
+				}
 			}
-			err = fmt.Errorf("panic: %v\n%s", r, st)
+			err = fmt.Errorf("panic: %v\n%s", r, strings.Join(keep, "\n"))
 		}
 	}()
 	return f()
